@@ -76,6 +76,7 @@ class BuildState:
         self.go_ok = True
         self.go_log = ""
         self.cmds = []
+        self.extract_failed = False
 
 
 def lint_coq():
@@ -127,13 +128,15 @@ def ensure_built(tools=()):
         stamp = os.path.join(BUILD, "mvmodel.stamp")
         cur = tree_hash([s for s in srcs if "/Props/" not in s and "Proof" not in os.path.basename(s)])
         old = open(stamp).read() if os.path.exists(stamp) else ""
-        if st.coq_ok and (cur != old or not os.path.exists(mv)):
+        if cur != old or not os.path.exists(mv):
             p = sh("./ocaml/build.sh", cwd=ROOT, timeout=1800)
             st.cmds.append("ocaml/build.sh  (coqc coq/extract/Extract.v; ocamlfind ocamlopt)")
             if p.returncode == 0:
                 open(stamp, "w").write(cur)
             else:
-                st.coq_ok = False
+                st.extract_failed = True
+                if os.path.exists(stamp):
+                    os.remove(stamp)
                 st.coq_log += "\n" + p.stdout
         # 4. Go harness against /repo's working tree, hooks on
         if tools == "all":
@@ -267,8 +270,11 @@ class Check:
         if not st.translator_ok:
             self.broken.append("translator failed on /repo: " + st.translator_log[-800:])
         if not st.coq_ok:
-            m = re.findall(r'File "([^"]+)", line (\d+)[^\n]*\n(?:.*\n){0,6}?Error:[^\n]*(?:\n[^\n]*){0,3}', st.coq_log)
-            self.broken.append("coq build failed (a proof obligation over the regenerated facts no longer checks): " + st.coq_log[-1500:])
+            # make -k built everything that still checks; whether THIS property is affected is decided by props()
+            # (coqc on its Props file fails iff something it depends on is broken) and by the extraction step
+            self.notes.append("coq: some file of the development does not build on this tree: " + " | ".join(re.findall(r'File "([^"]+)", line \d+', st.coq_log)[:5]))
+            if not os.path.exists(os.path.join(BIN, "mvmodel")) or st.extract_failed:
+                self.broken.append("extraction of the models failed: " + st.coq_log[-1500:])
         if not st.go_ok:
             self.broken.append("harness does not build against /repo: " + st.go_log[-1500:])
         return st
